@@ -777,11 +777,12 @@ impl<'a> Compiler<'a> {
 
                 self.compile_begin();
                 const CLOSURE_MASK: u64 = 0xEFEFEFEF;
-                let function_handle =
-                    self.current_index.as_handle() + Handle::from_u64(CLOSURE_MASK);
                 let arity = embedded_function.arguments.len() as u32;
                 let handle = u32::try_from(self.program.bytecode.len())
                     .expect("bytecode length to fit into 32 bits");
+                // the card index is only unique within a module (it holds the function's index
+                // in its own module), the position of the body is unique in the whole program
+                let function_handle = Handle::from_u32(handle) + Handle::from_u64(CLOSURE_MASK);
                 self.program
                     .labels
                     .0
